@@ -105,7 +105,9 @@ def run(chk):
                 continue
             got = np.asarray(cobj.halos[col])
             # the subsample index columns are re-based when subsamples are loaded: their canonical value is that of the fields=all load with the same subsamples
-            Rc = ref.get((c['cleaned'], abk)) if col.startswith('np') else R
+            # (only for the subsample that IS loaded; the index columns of a subsample that is not loaded are ordinary columns)
+            col_ab = col[len('npstart'):][:1] if col.startswith('npstart') else (col[len('npout'):][:1] if col.startswith('npout') else '')
+            Rc = ref.get((c['cleaned'], abk)) if (col_ab and col_ab in c['ABs']) else R
             want = np.asarray(Rc.halos[col]) if Rc is not None and col in Rc.halos.colnames else None
             if want is None:
                 continue
